@@ -401,7 +401,7 @@ class Body:
         alts = []
         defs = self.defs().get(local, [])
         if 1 <= local <= self.argc:
-            alts.append(("arg", local, tuple(x for x in suffix if not x.startswith("@") and x != "[]")))
+            alts.append(self._arg_leaf(local, suffix))
         for df in defs:
             kind = df[0]
             if kind == "assign":
@@ -433,7 +433,7 @@ class Body:
                 alts.append(("resume",))
         if not alts:
             if self.captures is not None and local == 1:
-                e = ("arg", 1, tuple(x for x in suffix if not x.startswith("@") and x != "[]"))
+                e = self._arg_leaf(1, suffix)
             else:
                 e = ("unknown", "undef _%d" % local)
         elif len(alts) == 1:
@@ -442,6 +442,13 @@ class Body:
             e = ("phi", tuple(alts))
         memo[key] = e
         return e
+
+    def _arg_leaf(self, local, suffix):
+        sfx = tuple(x for x in suffix if not x.startswith("@") and x != "[]")
+        if self.captures is not None and local == 1 and sfx and sfx[0].isdigit() and int(sfx[0]) < len(self.captures):
+            # closure / coroutine environment: name the captured variable
+            return ("arg", self.captures[int(sfx[0])], sfx[1:])
+        return ("arg", local, sfx)
 
     def expr_rvalue(self, r, suffix, b, depth):
         k = r["k"]
@@ -498,6 +505,17 @@ class Body:
         if e[0] == "arg":
             return ("arg", e[1], e[2] + tuple(x for x in suffix if not x.startswith("@") and x != "[]"))
         return ("proj", suffix, e)
+
+    def edge_conditions(self, block):
+        """Switch edges every path entry -> block must take: list of (switch block, label, target)."""
+        out = []
+        for s in sorted(self.reachable_from([0])):
+            if self.blocks[s]["t"]["k"] != "switch" or s == block:
+                continue
+            for d, lab in self.out_edges(s):
+                if block not in self.reachable_from([0], removed_edges={(s, d)}):
+                    out.append((s, lab, d))
+        return out
 
     def expr_call(self, t, b, depth):
         args = tuple(self.expr_operand(a, depth) for a in t["args"])
@@ -558,6 +576,10 @@ def walk(e, seen=None):
             stack.append(x[1])
 
 
+def arg_name(a):
+    return "a%d" % a if isinstance(a, int) else str(a)
+
+
 def leaves(e, facts=None, depth=0):
     """Flattened leaf strings of an expression:
     'a<i>[.field...]', 'call:<path>', 'const:<def path>', 'lit:<value>', 'len:a<i>...',
@@ -567,7 +589,7 @@ def leaves(e, facts=None, depth=0):
     for x in walk(e):
         tag = x[0]
         if tag == "arg":
-            out.add("a%d" % x[1] + "".join("." + f for f in x[2]))
+            out.add(arg_name(x[1]) + "".join("." + f for f in x[2]))
         elif tag == "const":
             if x[2]:
                 out.add("const:" + x[2])
@@ -591,8 +613,10 @@ def leaves(e, facts=None, depth=0):
             if facts is not None and depth < 3:
                 for lf in closure_leaves(facts, x, depth + 1):
                     out.add(lf)
-        elif tag == "cast" and x[3] and "PtrToPtr" in x[3]:
-            pass
+        elif tag in ("proj", "part"):
+            for f in x[1]:
+                if not f.startswith("@") and f != "[]" and not f.isdigit():
+                    out.add("field:" + f)
         elif tag == "un" and x[1] == "PtrMetadata":
             for lf in leaves(x[2]):
                 if lf.startswith("a"):
@@ -622,13 +646,14 @@ def closure_leaves(facts, cl, depth):
                 inner |= leaves(body.expr_rvalue(s["r"], (), b, 0), facts, depth)
         if t["k"] == "call" and t["dest"]["l"] == 0:
             inner |= leaves(body.expr_call(t, b, 0), facts, depth)
+    caps = body.captures or []
     for lf in inner:
-        m = re.match(r"^(len:)?a1\.(\d+)(.*)$", lf)
-        if m:
-            idx = int(m.group(2))
+        m = re.match(r"^(len:)?([A-Za-z_][A-Za-z_0-9]*)((?:\..*)?)$", lf)
+        if m and m.group(2) in caps and not re.match(r"^a\d+$", m.group(2)):
+            idx = caps.index(m.group(2))
             if idx < len(cap_leaves):
                 for c in cap_leaves[idx]:
-                    if c.startswith("a") and not c.startswith("ar"):
+                    if re.match(r"^[A-Za-z_][A-Za-z_0-9]*(\.|$)", c):
                         out.add((m.group(1) or "") + c + m.group(3))
                     else:
                         out.add(c)
@@ -644,7 +669,7 @@ def closure_leaves(facts, cl, depth):
 def leaf_match(pattern, leaf):
     """pattern forms: 'a1.index' (that field or anything below it), 'call:<glob>',
     'const:<glob>', 'lit:<v>', 'len:a1.shares', any with glob characters."""
-    if pattern.startswith(("call:", "const:", "fn:", "closure:", "closure_param:")):
+    if pattern.startswith(("call:", "const:", "fn:", "closure:", "closure_param:", "field:")):
         return glob(pattern, leaf)
     if pattern.startswith("lit:"):
         return leaf == pattern
@@ -670,7 +695,7 @@ def fmt_expr(e, depth=0):
         return "…"
     tag = e[0]
     if tag == "arg":
-        return "a%d" % e[1] + "".join("." + f for f in e[2])
+        return arg_name(e[1]) + "".join("." + f for f in e[2])
     if tag == "const":
         return str(e[2] or e[1])
     if tag == "fnptr":
